@@ -15,9 +15,9 @@ def check(ctx):
     m = ctx.module(TUS)
     layout.field_header(ctx, m, [LIMITS], ['types.h'])
     hp = os.path.join(VERIF, 'harness', 'c20.c')
-    nmax = 200
+    nmax = int(os.environ.get('C20_NMAX', '50' if quick else '200'))
     bins = {}
-    for part, ents, stubs, defs in (('I', [IMP], [], []), ('L', [IMP], [], []), ('A', [FIXED], [IMP], ['LL2C_FP_ABSTRACT', 'NMAX=%d' % nmax]), ('B', [CALC], [FIXED], ['LL2C_FP_ABSTRACT'])):
+    for part, ents, stubs, defs in (('I', [IMP], [], []), ('L', [IMP], [], []), ('A', [FIXED], [IMP], ['LL2C_FP_ABSTRACT', 'NMAX=%d' % nmax]), ('B', [CALC], [FIXED], ['LL2C_FP_ABSTRACT', 'NMAX=%d' % nmax])):
         c, _, _ = ctx.translate(m, ents, stubs=stubs, out='eng')
         cp = ctx.path('eng_%s.c' % part); shutil.copy(c, cp)
         bins[part] = (ctx.gotocc('c20' + part, [cp, hp], ['PART_' + part] + defs), ctx.gotocc('c20w' + part, [cp, hp], ['PART_' + part, 'WITNESS'] + defs))
@@ -25,7 +25,8 @@ def check(ctx):
              ('l_add', 'L', {'lemma': 'IEEE addition'}), ('l_div', 'L', {'lemma': 'IEEE division'}), ('l_trunc', 'L', {'lemma': 'double -> long truncation'}),
              ('l_mul', 'L', {'lemma': 'IEEE multiplication range (attempted)'}), ('l_mono', 'L', {'lemma': 'IEEE multiplication monotone (attempted)'}), ('l_70', 'L', {'lemma': 'trunc(0.7*t) <= 70% (attempted)'}),
              ('h_fixed', 'A', {'function': 'computeTimeForFixedLength as compiled; importance() and IEEE operations by contract', 'movesToGo': '1..%d (symbolic)' % nmax, 'totalTime': '0..2^31-1 (pair T1<=T2)', 'ply': '0..1000'}),
-             ('h_calc', 'B', {'function': 'calculateTime as compiled; fixed-length routine by contract (A)', 'remaining': '0..86400000 ms (pair t1<=t2)', 'increment': '0..600000', 'movestogo': '0..200', 'ply': '0..1000', 'side': 'both'})]
+             ('h_calc_bounds', 'B', {'function': 'calculateTime as compiled; fixed-length routine by contract (A); non-negative and <= 70%', 'remaining': '0..86400000 ms', 'increment': '0..600000', 'movestogo': '0..%d' % nmax, 'ply': '0..1000', 'side': 'both'}),
+             ('h_calc_monotone', 'B', {'function': 'calculateTime as compiled; fixed-length routine by contract (A); monotone in the remaining time', 'remaining': '0..86400000 ms (pair t1<=t2)', 'increment': '0..600000', 'movestogo': '0..%d' % nmax, 'ply': '0..1000', 'side': 'both'})]
     qs, ws = [], []
     to = 600 if quick else 3000
     for fn, part, smp in names:
@@ -40,7 +41,7 @@ def check(ctx):
     proved = [r.q.name for r in res if r.q.name in ASSUMED_LEMMAS and r.status == 'pass']
     def replay(ctx, r):
         ce = r.ce()
-        if r.q.name == 'h_calc':
+        if r.q.name.startswith('h_calc'):
             exe = ctx.native_bin('c20_replay', [os.path.join(VERIF, 'native', 'c20_replay.cpp')], ['time_manager'], defines=[])
             args = [str(ce.get(k, 0)) for k in ('ce_t1', 'ce_t2', 'ce_inc', 'ce_mtg', 'ce_ply', 'ce_side')]
             out = ctx.sh([exe] + args, ok=(0, 1))
@@ -60,6 +61,6 @@ def check(ctx):
                      'IEEE addition/division/truncation facts are proved precisely (l_add, l_div, l_trunc); importance() is proved on precise IEEE arithmetic',
                      'IEEE-754 double semantics as compiled by clang without -ffast-math; the release build uses -Ofast, which may reassociate floating point',
                      'contract-level counterexamples (importance/IEEE values the real libm never produces) are replayed natively; if they do not reproduce they are still reported (strict) because the contract is what the proof rests on'],
-        bounds={'remaining': '0..86400000 ms', 'increment': '0..600000 ms', 'movestogo': '0..200 (0 means 50)', 'ply': '0..1000', 'colours': 'both',
+        bounds={'remaining': '0..86400000 ms', 'increment': '0..600000 ms', 'movestogo': '0..%d (0 means 50; quick tier 0..50, thorough 0..200)' % nmax, 'ply': '0..1000', 'colours': 'both',
                 'fixed-length routine': 'total time 0..2^31-1, movesToGo 1..%d (all, symbolic)' % nmax},
         extra={'assumed_ieee_multiplication_lemmas': assumed})
